@@ -226,6 +226,10 @@ func check(it *proto.Item, r *proto.Result) []proto.Issue {
 	var out []proto.Issue
 	for i := range r.Obs {
 		sc := scnOf(it, i)
+		if r.Obs[i].Err != nil {
+			out = append(out, proto.Issue{Key: "run-aborted", Detail: "a genuine path plus at most one foreign packet, yet the run failed (every hop lost): " + r.Obs[i].Err.Error()})
+			continue
+		}
 		out = append(out, proto.Attribution(sc, r, i)...)
 	}
 	return out
